@@ -813,3 +813,218 @@ Proof.
   intros v c s Hin. unfold df_representatives in Hin. apply in_map_iff in Hin.
   destruct Hin as [n [Heq _]]. inversion Heq; subst. apply conn_refl. exact I.
 Qed.
+
+(* ------------------------------------------------------------------ the enumeration behind oto_step_allowed is complete *)
+Lemma prod_choices_in : forall (ks : list (Z * list crow)) (f : Z -> crow),
+  (forall k opts, In (k, opts) ks -> In (f k) opts) ->
+  In (map (fun ko => (fst ko, f (fst ko))) ks) (prod_choices ks).
+Proof.
+  induction ks as [|[k opts] ks IH]; intros f H; [left; reflexivity|]. cbn [map prod_choices fst].
+  apply in_flat_map. exists (f k). split; [apply H; left; reflexivity|].
+  apply in_map. apply IH. intros k' o' Hin. apply H. right. assumption.
+Qed.
+
+Lemma find_assignment : forall (keys : list Z) (g : Z -> crow) k,
+  In k keys -> find (fun kr : Z * crow => fst kr =? k) (map (fun c => (c, g c)) keys) = Some (k, g k).
+Proof.
+  induction keys as [|c keys IH]; intros g k Hin; [contradiction|]. cbn [map find fst].
+  destruct (c =? k) eqn:E; [apply Z.eqb_eq in E; subst; reflexivity|].
+  destruct Hin as [->|Hin]; [rewrite Z.eqb_refl in E; discriminate|]. apply IH. assumption.
+Qed.
+
+Lemma max_rows_in : forall (ch : chooser) it k rows,
+  rank1_ok ch -> rows <> [] -> In (ch it k rows) (max_rows rows).
+Proof.
+  intros ch it k rows Hok Hne. destruct (Hok it k rows Hne) as [Hin Hmax]. unfold max_rows.
+  apply filter_In. split; [assumption|]. apply forallb_forall. intros r Hr. apply Qle_bool_iff. apply Hmax. assumption.
+Qed.
+
+Lemma same_set_refl : forall a, same_set a a = true.
+Proof.
+  intros a. unfold same_set.
+  assert (H : forallb (fun x => existsb (pairZ_eqb x) a) a = true).
+  { apply forallb_forall. intros x Hx. apply existsb_exists. exists x. split; [assumption|].
+    unfold pairZ_eqb. rewrite !Z.eqb_refl. reflexivity. }
+  rewrite H. reflexivity.
+Qed.
+
+Lemma step_depends_on_choices : forall dfs nbs (chl chr chl' chr' : chooser) it it' prev,
+  (forall r, In r (candidates dfs nbs prev) ->
+     chl it (c_lrep r) (part_l (candidates dfs nbs prev) (c_lrep r))
+     = chl' it' (c_lrep r) (part_l (candidates dfs nbs prev) (c_lrep r))) ->
+  (forall r, In r (candidates dfs nbs prev) ->
+     chr it (c_rrep r) (part_r (candidates dfs nbs prev) (c_rrep r))
+     = chr' it' (c_rrep r) (part_r (candidates dfs nbs prev) (c_rrep r))) ->
+  oto_step dfs nbs chl chr it prev = oto_step dfs nbs chl' chr' it' prev.
+Proof.
+  intros dfs nbs chl chr chl' chr' it it' prev H1 H2.
+  assert (Hacc : df_neighbours_k dfs nbs chl chr it prev = df_neighbours_k dfs nbs chl' chr' it' prev).
+  { unfold df_neighbours_k. apply filter_ext_in. intros r Hr. unfold rank_l_is_1, rank_r_is_1.
+    rewrite (H1 r Hr), (H2 r Hr). reflexivity. }
+  unfold oto_step, df_representatives_k, r_table, source. rewrite Hacc. reflexivity.
+Qed.
+
+Lemma allowed_complete : forall dfs nbs (chl chr : chooser) it prev,
+  rank1_ok chl -> rank1_ok chr ->
+  oto_step_allowed dfs nbs prev (node_rep (oto_step dfs nbs chl chr it prev)) = true.
+Proof.
+  intros dfs nbs chl chr it prev Hl Hr. unfold oto_step_allowed, oto_step_results.
+  set (rows := candidates dfs nbs prev).
+  set (gl := fun c => chl it c (part_l rows c)). set (gr := fun c => chr it c (part_r rows c)).
+  set (kl := nodup Z.eq_dec (map c_lrep rows)). set (kr := nodup Z.eq_dec (map c_rrep rows)).
+  set (al := map (fun c => (c, gl c)) kl). set (ar := map (fun c => (c, gr c)) kr).
+  assert (Hal : In al (l_choices rows)).
+  { unfold l_choices. fold kl.
+    replace al with (map (fun ko : Z * list crow => (fst ko, gl (fst ko))) (map (fun c => (c, max_rows (part_l rows c))) kl))
+      by (unfold al; rewrite map_map; reflexivity).
+    apply prod_choices_in. intros k opts Hin. apply in_map_iff in Hin. destruct Hin as [c [Heq Hc]].
+    inversion Heq; subst. unfold gl. apply max_rows_in; [assumption|].
+    apply nodup_In in Hc. apply in_map_iff in Hc. destruct Hc as [r [Hrc Hr']].
+    intro Hnil. assert (Hin : In r (part_l rows k)) by (apply filter_In; split; [assumption|apply Z.eqb_eq; assumption]).
+    rewrite Hnil in Hin. exact Hin. }
+  assert (Har : In ar (r_choices rows)).
+  { unfold r_choices. fold kr.
+    replace ar with (map (fun ko : Z * list crow => (fst ko, gr (fst ko))) (map (fun c => (c, max_rows (part_r rows c))) kr))
+      by (unfold ar; rewrite map_map; reflexivity).
+    apply prod_choices_in. intros k opts Hin. apply in_map_iff in Hin. destruct Hin as [c [Heq Hc]].
+    inversion Heq; subst. unfold gr. apply max_rows_in; [assumption|].
+    apply nodup_In in Hc. apply in_map_iff in Hc. destruct Hc as [r [Hrc Hr']].
+    intro Hnil. assert (Hin : In r (part_r rows k)) by (apply filter_In; split; [assumption|apply Z.eqb_eq; assumption]).
+    rewrite Hnil in Hin. exact Hin. }
+  apply existsb_exists. exists (node_rep (oto_step dfs nbs (chooser_of al) (chooser_of ar) O prev)). split.
+  - apply in_flat_map. exists al. split; [assumption|]. apply in_map_iff. exists ar. split; [reflexivity|assumption].
+  - rewrite (step_depends_on_choices dfs nbs chl chr (chooser_of al) (chooser_of ar) it O prev).
+    + apply same_set_refl.
+    + intros r Hr'. fold rows. unfold chooser_of, al.
+      rewrite find_assignment by (apply nodup_In; apply in_map; assumption). reflexivity.
+    + intros r Hr'. fold rows. unfold chooser_of, ar.
+      rewrite find_assignment by (apply nodup_In; apply in_map; assumption). reflexivity.
+Qed.
+
+(* ------------------------------------------------------------------ termination of the loop *)
+Definition zsum (l : list Z) : Z := fold_right Z.add 0 l.
+Definition mu (t : list reprow) : Z := zsum (map rr_rep t).
+
+Lemma zsum_perm : forall l l', Permutation l l' -> zsum l = zsum l'.
+Proof. intros l l' H. unfold zsum. induction H; cbn [fold_right] in *; lia. Qed.
+
+Lemma zsum_le : forall (A : Type) (f g : A -> Z) (l : list A),
+  (forall x, In x l -> f x <= g x) -> zsum (map f l) <= zsum (map g l).
+Proof.
+  induction l as [|x l IH]; intros H; [reflexivity|]. cbn [map]. unfold zsum. cbn [fold_right]. fold (zsum (map f l)). fold (zsum (map g l)).
+  assert (f x <= g x) by (apply H; left; reflexivity).
+  assert (zsum (map f l) <= zsum (map g l)) by (apply IH; intros; apply H; right; assumption).
+  unfold zsum in *. lia.
+Qed.
+
+Lemma zsum_lt : forall (A : Type) (f g : A -> Z) (l : list A) x0,
+  (forall x, In x l -> f x <= g x) -> In x0 l -> f x0 < g x0 -> zsum (map f l) < zsum (map g l).
+Proof.
+  induction l as [|x l IH]; intros x0 H Hin Hlt; [contradiction|]. cbn [map zsum fold_right].
+  assert (Hx : f x <= g x) by (apply H; left; reflexivity).
+  assert (Hl : zsum (map f l) <= zsum (map g l)) by (apply zsum_le; intros; apply H; right; assumption).
+  destruct Hin as [->|Hin].
+  - unfold zsum in *. lia.
+  - assert (zsum (map f l) < zsum (map g l)) by (apply IH with x0; auto; intros; apply H; right; assumption).
+    unfold zsum in *. lia.
+Qed.
+
+Lemma zsum_ge : forall lb (l : list Z), (forall x, In x l -> lb <= x) -> lb * Z.of_nat (length l) <= zsum l.
+Proof.
+  induction l as [|x l IH]; intros H; cbn [length zsum fold_right]; [lia|].
+  assert (lb <= x) by (apply H; left; reflexivity).
+  assert (lb * Z.of_nat (length l) <= zsum l) by (apply IH; intros; apply H; right; assumption).
+  unfold zsum in *. lia.
+Qed.
+
+Section Termination.
+  Variable dfs : list Z.
+  Variable nbs : list nbrow.
+  Variables chl chr : chooser.
+
+  Definition newrow (it : nat) (t : list reprow) (r : reprow) : reprow :=
+    (rr_node r, minl (vals dfs nbs chl chr it t (rr_node r)), rr_sds r).
+
+  Lemma step_perm : forall it t, NoDup (map rr_node t) ->
+    Permutation (strip (oto_step dfs nbs chl chr it t)) (map (newrow it t) t).
+  Proof.
+    intros it t Hnd. apply NoDup_Permutation.
+    - apply NoDup_map_inv with (f := rr_node). apply step_nodes_nodup. assumption.
+    - apply NoDup_map_inv with (f := rr_node). rewrite map_map. unfold newrow, rr_node at 1. cbn [fst]. exact Hnd.
+    - intros [[v c] s]. rewrite strip_step_in. rewrite in_map_iff. split.
+      + intros [c0 [Hin ->]]. exists (v, c0, s). split; [reflexivity|assumption].
+      + intros [[[v0 c0] s0] [Heq Hin]]. unfold newrow, rr_node, rr_sds in Heq. cbn [fst snd] in Heq.
+        inversion Heq; subst. exists c0. split; [assumption|reflexivity].
+  Qed.
+
+  Lemma mu_step : forall it t, NoDup (map rr_node t) ->
+    mu (strip (oto_step dfs nbs chl chr it t)) = zsum (map (fun r => minl (vals dfs nbs chl chr it t (rr_node r))) t).
+  Proof.
+    intros it t Hnd. unfold mu. rewrite (zsum_perm _ _ (Permutation_map rr_rep (step_perm it t Hnd))).
+    rewrite map_map. reflexivity.
+  Qed.
+
+  Lemma step_pointwise : forall it t r, NoDup (map rr_node t) -> In r t ->
+    minl (vals dfs nbs chl chr it t (rr_node r)) <= rr_rep r.
+  Proof. intros it t [[v c] s] Hnd Hin. apply (new_rep_le dfs nbs chl chr it t v c s Hin). Qed.
+
+  Lemma mu_decreases : forall it t, NoDup (map rr_node t) ->
+    count_needs_updating (oto_step dfs nbs chl chr it t) <> O ->
+    mu (strip (oto_step dfs nbs chl chr it t)) < mu t.
+  Proof.
+    intros it t Hnd Hc. rewrite mu_step by assumption. unfold mu.
+    unfold count_needs_updating in Hc.
+    destruct (filter snd (oto_step dfs nbs chl chr it t)) as [|x l] eqn:Ef; [contradiction|].
+    assert (Hx : In x (filter snd (oto_step dfs nbs chl chr it t))) by (rewrite Ef; left; reflexivity).
+    apply filter_In in Hx. destruct Hx as [Hx Hb]. apply step_in in Hx. destruct Hx as [r [Hr ->]].
+    cbn [snd] in Hb. apply negb_true_iff in Hb. apply Z.eqb_neq in Hb.
+    apply zsum_lt with r; [intros; apply step_pointwise; assumption|assumption|].
+    pose proof (step_pointwise it t r Hnd Hr). lia.
+  Qed.
+
+  Lemma step_lower_bound : forall lb it t, NoDup (map rr_node t) ->
+    (forall r, In r t -> lb <= rr_rep r) ->
+    forall r, In r (strip (oto_step dfs nbs chl chr it t)) -> lb <= rr_rep r.
+  Proof.
+    intros lb it t Hnd Hlb [[v c] s] Hin. apply strip_step_in in Hin. destruct Hin as [c0 [Hp ->]].
+    pose proof (minl_in _ (vals_nonempty dfs nbs chl chr it t _ Hp)) as Hm. cbn [rr_node fst] in Hm.
+    apply vals_in in Hm. unfold rr_rep at 1. cbn [fst snd].
+    destruct Hm as [(a & r & _ & Hr & _ & _ & <-)|(r & Hr & _ & <-)]; apply Hlb; assumption.
+  Qed.
+
+  Lemma step_length : forall it t, NoDup (map rr_node t) ->
+    length (strip (oto_step dfs nbs chl chr it t)) = length t.
+  Proof. intros. rewrite (Permutation_length (step_perm it t H)). apply map_length. Qed.
+
+  Lemma loop_terminates_aux : forall lb fuel it t,
+    NoDup (map rr_node t) -> (forall r, In r t -> lb <= rr_rep r) ->
+    (Z.to_nat (mu t - lb * Z.of_nat (length t)) < fuel)%nat ->
+    oto_loop dfs nbs chl chr fuel it t <> None.
+  Proof.
+    induction fuel; intros it t Hnd Hlb Hf; [lia|]. cbn [oto_loop].
+    destruct (Nat.eqb (count_needs_updating (oto_step dfs nbs chl chr it t)) 0) eqn:Ec; [discriminate|].
+    apply Nat.eqb_neq in Ec. apply IHfuel.
+    - apply step_nodes_nodup. assumption.
+    - apply step_lower_bound; assumption.
+    - pose proof (mu_decreases it t Hnd Ec) as Hdec. rewrite step_length by assumption.
+      assert (Hge : lb * Z.of_nat (length t) <= mu (strip (oto_step dfs nbs chl chr it t))).
+      { rewrite <- (step_length it t Hnd). unfold mu. rewrite <- (map_length rr_rep). apply zsum_ge.
+        intros x Hx. apply in_map_iff in Hx. destruct Hx as [r [<- Hr]].
+        apply (step_lower_bound lb it t Hnd Hlb r Hr). }
+      lia.
+  Qed.
+End Termination.
+
+Lemma loop_terminates : forall dfs thr (chl chr : chooser) nodes E,
+  NoDup (map n_id nodes) ->
+  exists fuel, forall fuel', (fuel <= fuel')%nat ->
+    oto_loop dfs (df_neighbours thr E) chl chr fuel' 1 (df_representatives nodes) <> None.
+Proof.
+  intros dfs thr chl chr nodes E Hnd. set (t := df_representatives nodes). set (lb := minl (map n_id nodes)).
+  exists (S (Z.to_nat (mu t - lb * Z.of_nat (length t)))). intros fuel' Hf.
+  apply loop_terminates_aux with lb.
+  - unfold t, df_representatives. rewrite map_map. exact Hnd.
+  - intros r Hr. unfold t, df_representatives in Hr. apply in_map_iff in Hr. destruct Hr as [n [<- Hn]].
+    unfold rr_rep. cbn [fst snd]. apply minl_le. apply in_map. assumption.
+  - lia.
+Qed.
